@@ -393,6 +393,18 @@ func runC04(c *core.Ctx) {
 			break
 		}
 	}
+	// the same gap on the Logon and recoveries with EnableNextExpectedMsgSeqNum=Y on our side and a peer that does not
+	// take part in that scheme (no tag 789 in its Logon): everything is as without the option
+	for _, ini := range []bool{false, true} {
+		for _, ch := range []int{0, 2} {
+			cfg := sessmc.Config{Initiator: ini, BeginString: "FIX.4.4", Chunk: ch, Extra: map[string]string{"EnableNextExpectedMsgSeqNum": "Y"}}
+			for _, v := range []string{"C04/recovery", "C04/logon-gap"} {
+				sp := variantDefs[v](cfg)
+				sp.depth, sp.relative = dRec-1, true
+				runSearch(c, sp)
+			}
+		}
+	}
 	for _, t := range []int{4, 9} {
 		cfg := sessmc.Config{BeginString: "FIX.4.2", ResetOnLogon: true, InitS: 5, InitT: t, InitMsgs: []string{"A", "D", "0", "D"}}
 		sp := variantDefs["C04/logon-gap-reset"](cfg)
